@@ -290,6 +290,7 @@ func init() {
 				}
 			}
 			c.Check(f1 && hasLE && hasLT, "C01/client", "tsLessEqual", "physical == ⇒ logical <=, otherwise physical <", P.pos(tl.Pos()), "")
+			ruleRequestRecycling(c)
 		})
 	})
 }
@@ -425,4 +426,89 @@ func constStringObj(o types.Object) (string, bool) {
 		return "", false
 	}
 	return constant.StringVal(c.Val()), true
+}
+
+// ruleRequestRecycling: a tsoRequest goes back to the pool only after its
+// completion was received from req.done. A request recycled while it is still
+// queued (or in flight) is handed to the next caller and completed twice: the
+// second owner reads the timestamp of the first.
+func ruleRequestRecycling(c *Ctx) {
+	P := c.P
+	rule := "C01/client"
+	done := P.Field("client", "tsoRequest", "done")
+	pool := P.pkg("client").Types.Scope().Lookup("tsoReqPool")
+	if pool == nil {
+		c.Undec(rule, "client.tsoReqPool", "found", "", "")
+		return
+	}
+	n := 0
+	for _, fn := range P.Funcs {
+		if P.isScaffold(fn) || fnPkgPath(fn) != modPath+"/client" {
+			continue
+		}
+		// blocks in which a completion has been received: a direct receive, or the branch of a select
+		// taken when the req.done case fired
+		var recvBlocks []*ssa.BasicBlock
+		recvAt := map[*ssa.BasicBlock]int{}
+		for _, b := range fn.Blocks {
+			for i, ins := range b.Instrs {
+				switch t := ins.(type) {
+				case *ssa.UnOp:
+					if t.Op == token.ARROW && isLoadOf(t.X, done) {
+						recvBlocks = append(recvBlocks, b)
+						recvAt[b] = i
+					}
+				case *ssa.If:
+					bo, ok := t.Cond.(*ssa.BinOp)
+					if !ok || bo.Op != token.EQL {
+						continue
+					}
+					ex, ok := bo.X.(*ssa.Extract)
+					if !ok || ex.Index != 0 {
+						continue
+					}
+					sel, ok := ex.Tuple.(*ssa.Select)
+					k, isC := constInt(bo.Y)
+					if !ok || !isC || int(k) >= len(sel.States) {
+						continue
+					}
+					st := sel.States[k]
+					if st.Dir == types.RecvOnly && isLoadOf(st.Chan, done) && len(b.Succs[0].Preds) == 1 {
+						recvBlocks = append(recvBlocks, b.Succs[0])
+						recvAt[b.Succs[0]] = -1
+					}
+				}
+			}
+		}
+		k := 0
+		for _, b := range fn.Blocks {
+			for i, ins := range b.Instrs {
+				ci, ok := ins.(ssa.CallInstruction)
+				if !ok {
+					continue
+				}
+				f := ci.Common().StaticCallee()
+				if f == nil || f.Name() != "Put" || f.Pkg == nil || f.Pkg.Pkg.Path() != "sync" || len(ci.Common().Args) == 0 {
+					continue
+				}
+				g, isG := strip(ci.Common().Args[0]).(*ssa.Global)
+				if !isG || g.Object() != pool {
+					continue
+				}
+				k++
+				n++
+				ok = false
+				for _, rb := range recvBlocks {
+					if rb == b && recvAt[rb] < i || rb != b && rb.Dominates(b) {
+						ok = true
+					}
+				}
+				c.saw(fnName(fn))
+				c.Check(ok, rule, fmt.Sprintf("tsoReqPool.Put #%d in %s", k, fnName(fn)), "a request is recycled (also by a deferred Put) only on a path that received its completion from req.done", P.instrPos(ins), "no receive from req.done dominates this Put")
+			}
+		}
+	}
+	if n == 0 {
+		c.Undec(rule, "tsoReqPool.Put sites", "at least 1", "", "0")
+	}
 }
